@@ -392,8 +392,21 @@ def late_poll(rec, case):
         sim.teardown()
 
 
+def overlapping_opens(rec, case):
+    """Sessions whose opens overlap (slow / awaiting connect handlers): each
+    client reads, with the sid of its own OPEN packet, exactly the message
+    the application sent to the session its connect handler was given - never
+    another session's. (The scenario is C11's run_overlap; the delivery
+    oracle in it is this property's last sentence.)"""
+    from vf.checks import c11
+    rec.count('overlapping_open_deliveries')
+    c11.run_overlap(rec, case['overlap'])
+
+
 def dispatch(rec, case):
-    if case.get('dfs'):
+    if case.get('overlap'):
+        overlapping_opens(rec, case)
+    elif case.get('dfs'):
         dfs_small(rec, case)
     elif case.get('late'):
         late_poll(rec, case)
@@ -418,6 +431,11 @@ def plan(tier, seed):
                             late.append({'late': True, 'srv': srv, 'k': k,
                                          'k2': k2, 'script': script,
                                          'pending': pending, 'sched': sd})
+    for srv in 'TA':
+        for outs in ([None, None], [None, None, None], [None, False, None],
+                     [True, None]):
+            late.append({'overlap': {'srv': srv, 'n': len(outs),
+                                     'outcomes': outs}})
     for i in range(4):
         shards.append({'lates': late[i::4]})
     if tier == 'thorough':
